@@ -52,6 +52,8 @@ def cases(tier, seed):
     for isz in (1, 2, 4, 8):
         for cbs in (isz, 2 * isz, 3 * isz + 1, 7 * isz, 1 << 22):
             yield dict(kind='roundtrip', itemsize=isz, cbs=cbs, nmax=24 if tier == 'quick' else 64)
+    # one compressor object used for several blocks in a row (also after a truncated read): no state may survive a call
+    yield dict(kind='reuse', depth=2 if tier == 'quick' else 3)
     for bs in ((1, 3, 7, 64, -1) if tier == 'quick' else (1, 2, 3, 5, 7, 11, 64, 4096, -1)):
         yield dict(kind='asdf', io_block_size=bs)
 
@@ -308,5 +310,60 @@ def run_asdf(case):
     return dict(problems=probs, evals=n, traces=n, nt=[('asdf', case['io_block_size'])], extra=dict(asdf_array_reads=n))
 
 
+def run_reuse(case):
+    """every sequence (up to `depth`) of (stream, chunking) calls on ONE BloscCompressor instance; chunkings = whole / all
+    single cuts; streams include one that ends in the middle of a frame (a truncated read, which may raise or return short)"""
+    import blosc
+    from abacusnbody.data.asdf import BloscCompressor
+    specs = [dict(nitems=5, itemsize=4, cbs=8), dict(nitems=3, itemsize=8, cbs=8), dict(mini=[1, 2])]
+    streams = [make_stream(s) for s in specs]
+    calls = []
+    for si, (stream, pay, bounds) in enumerate(streams):
+        L = len(stream)
+        cuts = [[L]] + [[c, L - c] for c in range(1, L)]
+        if si == 0:
+            cuts = cuts[:1] + cuts[1::3]
+        for ch in cuts:
+            calls.append((si, ch, False))
+        calls.append((si, [L - 3], True))     # truncated: the last frame is cut short
+    probs = []
+    n = 0
+    nt = []
+
+    def one(comp, si, chunks, truncated):
+        stream, pay, bounds = streams[si]
+        big = np.full(len(pay) + 2 * G, SENT, dtype=np.uint8)
+        out = memoryview(big)[G:G + len(pay)]
+        blosc.WRITE_WINDOW = (big.ctypes.data + G, len(pay))
+        o = 0
+        blocks = []
+        for c in chunks:
+            blocks.append(stream[o:o + c]); o += c
+        try:
+            ret = comp.decompress(iter(blocks), out)
+            err = None
+        except Exception as e:
+            ret, err = None, f'{type(e).__name__}: {e}'
+        finally:
+            blosc.WRITE_WINDOW = None
+        return ret, err, big[G:G + len(pay)].tobytes(), bool((big[:G] == SENT).all() and (big[G + len(pay):] == SENT).all())
+    for seq in itertools.product(range(len(calls)), repeat=case['depth']):
+        comp = BloscCompressor()
+        for pos, ci in enumerate(seq):
+            si, chunks, trunc = calls[ci]
+            ret, err, outb, guard = one(comp, si, chunks, trunc)
+            n += 1
+            pay = streams[si][1]
+            if not guard:
+                probs.append(dict(sig='reuse:write-outside-output', msg=f'sequence {[calls[c] for c in seq]} call {pos}'))
+            if not trunc and (err or ret != len(pay) or outb != pay):
+                probs.append(dict(sig='reuse:later-call-differs', msg=f'call {pos} of sequence {[calls[c] for c in seq]} on one compressor object: err={err} ret={ret} (payload {len(pay)} bytes)'))
+                break
+        if len(probs) > 5:
+            break
+    nt = [('reuse', case['depth'], len(calls))]
+    return dict(problems=probs[:3], evals=n, traces=n, states=len(calls) ** case['depth'], transitions=n, nt=nt, extra=dict(reuse_calls=n))
+
+
 def run(case):
-    return {'bfs': run_bfs, 'brute': run_brute, 'roundtrip': run_roundtrip, 'asdf': run_asdf}[case['kind']](case)
+    return {'reuse': run_reuse, 'bfs': run_bfs, 'brute': run_brute, 'roundtrip': run_roundtrip, 'asdf': run_asdf}[case['kind']](case)
